@@ -804,6 +804,11 @@ CO_ERR COSdoUploadBlock(CO_SDO *srv)
     uint8_t  len;
     uint8_t  i;
 
+    if (srv->Obj == 0) {
+        COSdoAbort(srv, CO_SDO_ERR_CMD);
+        return (CO_ERR_SDO_ABORT);
+    }
+
     srv->Buf.Cur = srv->Buf.Start;
     srv->Buf.Num = 0u;
     num          = srv->Blk.SegNum * 7u;
